@@ -157,12 +157,17 @@ def l2(which, quick):
                 S.append((D(mode=mode, nj=2, pre=4, bs=1, cbthreads=cb, calls=[dict(n=8)]), r))
                 S.append((D(mode=mode, nj=2, pre=6, bs=2, cbthreads=cb, calls=[dict(n=11)]), r))
                 S.append((D(mode=mode, nj=3, pre="2*n_jobs", bs="auto", bsizes=[1, 2], cbthreads=cb, calls=[dict(n=10)]), r))
+            # legacy protocol, futures semantics: the caller fetches a result while another thread is still dispatching
+            S.append((D(mode=LIST, nj=2, pre=2, bs=1, rc=False, cbthreads=cb, calls=[dict(n=5)]), r))
+            S.append((D(mode=GEN, nj=2, pre=2, bs=2, rc=False, cbthreads=cb, calls=[dict(n=7), dict(n=3)]), r))
         elif which == "C04":
             for mode in (LIST, GEN, UNORD):
                 S.append((D(mode=mode, nj=2, pre=4, bs=1, cbthreads=cb, calls=[dict(n=6, fail=(2,)), dict(n=4)]), r))
                 S.append((D(mode=mode, nj=2, pre=4, bs=1, cbthreads=cb, calls=[dict(n=7, fail=(1, 3)), dict(n=3, iterfail=2), dict(n=3)]), r))
                 S.append((D(mode=mode, nj=2, pre=4, bs=1, cbthreads=cb, joins=(cb == "serial"), calls=[dict(n=6, fail=(0,)), dict(n=5)]), r))
                 S.append((D(mode=mode, nj=2, pre=3, bs=1, cbthreads=cb, timeout=0.04, calls=[dict(n=5, hang=(1,)), dict(n=3)]), r // 2))
+            S.append((D(mode=LIST, nj=2, pre=2, bs=1, rc=False, cbthreads=cb, calls=[dict(n=5, fail=(2,)), dict(n=3)]), r // 2))
+            S.append((D(mode=LIST, nj=2, pre=2, bs=1, rc=False, cbthreads=cb, timeout=0.04, calls=[dict(n=4, hang=(1,)), dict(n=3)]), r // 2))
         elif which == "C09":
             for mode in (LIST, GEN, UNORD):
                 S.append((D(mode=mode, nj=2, pre=4, bs=1, cbthreads=cb, calls=[dict(n=10)]), r))
